@@ -22,7 +22,8 @@ from common import Report, pick_samples, log, build_cli, build_workers, run_proc
 GQL_DIR = os.path.join(REPO, "graphql_client_cli", "src", "graphql")
 DOCS = {(False, False): "introspection_query.graphql", (True, False): "introspection_query_with_is_one_of.graphql",
         (False, True): "introspection_query_with_specified_by.graphql", (True, True): "introspection_query_with_isOneOf_specifiedByUrl.graphql"}
-SENTINEL = b'{"sentinel": "an earlier, good introspection result"}\n'
+# longer than anything the mock serves: a write that does not truncate leaves a tail behind
+SENTINEL = b'{"sentinel": "an earlier, good introspection result", "padding": "' + b"x" * 20000 + b'"}\n'
 
 
 class Mock:
